@@ -1,18 +1,19 @@
-SPECIFICATION SpecC11SharedCancelR
+SPECIFICATION SpecC11KindCancel
 CONSTANTS
-  Validators = {1, 2}
+  Validators = {1}
   Externals = {3}
   Relays = {1, 2}
   Nodes = {1, 2}
-  DocIds = {2, 3}
+  DocIds = {2}
   FailKinds = {"error"}
   Ops = {}
   MaxInFlight = 0
   AuctionImpl = "intended"
   Resolution = "locked"
   MaxRounds = 2
-  ErrKinds <- ErrKindsOne
-INVARIANTS TypeOKC11 ForwardedAll
+
+INVARIANTS TypeOKC11 FailureIsolated PreparationIsolated ForwardedAll
 CONSTRAINT RoundBound
 CONSTRAINT NoLane2
+
 CHECK_DEADLOCK FALSE
